@@ -217,6 +217,10 @@ def AMeter.init : AMeter :=
 /-- what the callbacks report in one cycle: callback `cb` calls `Observe(v, a)` for `script cb` in order -/
 abbrev Script := Nat → List (Nat × Int)
 
+/-- `Record` aggregates each measurement into a fresh default aggregation first; the sum aggregation of a monotonic
+    instrument ignores a negative value, so a negative observation on an observable counter counts as 0 -/
+def ignoreNegative (ms : DMap) : DMap := ms.map fun kv => (kv.1, if kv.2 < 0 then 0 else kv.2)
+
 /-- `ObservableRegistry::Observe`: invoke each record once, in order, and `Record*` its measurements into the
     storage of the record's instrument -/
 def observe (m : AMeter) (script : Script) : AMeter :=
@@ -227,7 +231,8 @@ def observe (m : AMeter) (script : Script) : AMeter :=
       let res := grecordAll (m.gauges inv.instr) m.clock ms
       { m with gauges := setAt m.gauges inv.instr res.1, clock := res.2 }
     | some .syncGauge => m
-    | some _ => { m with sums := setAt m.sums inv.instr (recordAll (m.sums inv.instr) ms) }
+    | some .counter => { m with sums := setAt m.sums inv.instr (recordAll (m.sums inv.instr) (ignoreNegative ms)) }
+    | some .updown => { m with sums := setAt m.sums inv.instr (recordAll (m.sums inv.instr) ms) }
     | none => m) m
 
 /-- what a reader receives for one instrument -/
